@@ -263,7 +263,9 @@ let par_histories prim cfg seed count len threads out =
       (* not in threaded programs: teardown; semaphore releaser ops (they name a releaser by its
          position in the model's global list, which a thread cannot know) *)
       let keep o = o <> [n_of_int 20] &&
-        not (prim = "semaphore" && (match o with c :: _ -> c = n_of_int 5 || c = n_of_int 6 | [] -> false)) in
+        not (prim = "semaphore" && (match o with c :: _ -> c = n_of_int 5 || c = n_of_int 6 | [] -> false)) &&
+        (* state broadcast: the id-jump hook needs an empty wait queue at its linearization point *)
+        not (prim = "state" && (match o with c :: _ -> c = n_of_int 15 | [] -> false)) in
       let en = Array.of_list (List.filter keep (m.Base.m_enabled !s)) in
       if Array.length en = 0 then raise Exit;
       let o = en.(Random.int (Array.length en)) in
